@@ -3484,20 +3484,31 @@ def cpuid(_, instr):
 
 
 def bittest_get(ir, instr, src, index):
+    # An immediate bit offset is taken modulo the operand size and never
+    # changes the address; a register bit offset is a signed bit index
+    is_imm = index.is_int()
     index = index.zeroExtend(src.size)
-    if isinstance(src, m2_expr.ExprMem):
+    if isinstance(src, m2_expr.ExprMem) and not is_imm:
         b_mask = {16: 4, 32: 5, 64: 6}
-        b_decal = {16: 1, 32: 3, 64: 7}
+        b_bytes = {16: 1, 32: 2, 64: 3}
         ptr = src.ptr
         segm = is_mem_segm(src)
         if segm:
             ptr = ptr.args[1]
 
-        off_bit = index.zeroExtend(
-            src.size) & m2_expr.ExprInt((1 << b_mask[src.size]) - 1,
-                                        src.size)
-        off_byte = ((index.zeroExtend(ptr.size) >> m2_expr.ExprInt(3, ptr.size)) &
-                    m2_expr.ExprInt(((1 << src.size) - 1) ^ b_decal[src.size], ptr.size))
+        off_bit = index & m2_expr.ExprInt((1 << b_mask[src.size]) - 1,
+                                          src.size)
+        bits = max(index.size, ptr.size)
+        signed_index = index.zeroExtend(bits)
+        if index.size < bits:
+            # Sign extension without condition: (x ^ msb) - msb
+            msb = m2_expr.ExprInt(1 << (index.size - 1), bits)
+            signed_index = (signed_index ^ msb) - msb
+        off_byte = m2_expr.ExprOp('a>>', signed_index,
+                                  m2_expr.ExprInt(b_mask[src.size], bits))
+        off_byte = off_byte << m2_expr.ExprInt(b_bytes[src.size], bits)
+        if bits > ptr.size:
+            off_byte = off_byte[:ptr.size]
 
         addr = ptr + off_byte
         if segm:
@@ -3513,7 +3524,6 @@ def bittest_get(ir, instr, src, index):
 
 def bt(ir, instr, src, index):
     e = []
-    index = index.zeroExtend(src.size)
     d, off_bit = bittest_get(ir, instr, src, index)
     d = d >> off_bit
     e.append(m2_expr.ExprAssign(cf, d[:1]))
